@@ -166,6 +166,11 @@ def main(argv=None):
     # ("the result must still be accepted by the backend")
     ref_names = {'C03': 'base', 'C05': 'debug', 'C07': 'release:none', 'C08': 'debug'}
     build_violations = []
+    if pid in ('C01', 'C02'):
+        # every corpus package is a well-typed program of the fragment: both profiles must produce bytecode
+        for (pi, vn), b in builds.items():
+            if not b.ok:
+                build_violations.append({'pkg': corpus[pi].name, 'variant': vn, 'log': b.log[-1500:]})
     if pid in ref_names:
         for (pi, vn), b in builds.items():
             if not b.ok and builds.get((pi, ref_names[pid])) and builds[(pi, ref_names[pid])].ok:
